@@ -392,7 +392,8 @@ class Param():
         element = self.toc.get_element_by_complete_name(complete_name)
 
         def new_packet_cb(pk):
-            if pk.channel == MISC_CHANNEL and pk.data[0] == MISC_GET_DEFAULT_VALUE:
+            if pk.channel == MISC_CHANNEL and pk.data[0] == MISC_GET_DEFAULT_VALUE and \
+                    struct.unpack('<H', pk.data[1:3])[0] == element.ident:
                 # An error reply carries nothing but the error code
                 if len(pk.data) == 4 and pk.data[3] == errno.ENOENT:
                     callback(complete_name, None)
@@ -424,7 +425,8 @@ class Param():
             raise AttributeError(f"Param '{complete_name}' is not persistent")
 
         def new_packet_cb(pk):
-            if pk.channel == MISC_CHANNEL and pk.data[0] == MISC_PERSISTENT_CLEAR:
+            if pk.channel == MISC_CHANNEL and pk.data[0] == MISC_PERSISTENT_CLEAR and \
+                    struct.unpack('<H', pk.data[1:3])[0] == element.ident:
                 callback(complete_name, pk.data[3] == 0)
                 self.cf.remove_port_callback(CRTPPort.PARAM, new_packet_cb)
 
@@ -453,7 +455,8 @@ class Param():
             raise AttributeError(f"Param '{complete_name}' is not persistent")
 
         def new_packet_cb(pk):
-            if pk.channel == MISC_CHANNEL and pk.data[0] == MISC_PERSISTENT_STORE:
+            if pk.channel == MISC_CHANNEL and pk.data[0] == MISC_PERSISTENT_STORE and \
+                    struct.unpack('<H', pk.data[1:3])[0] == element.ident:
                 callback(complete_name, pk.data[3] == 0)
                 self.cf.remove_port_callback(CRTPPort.PARAM, new_packet_cb)
 
@@ -487,7 +490,8 @@ class Param():
             raise AttributeError(f"Param '{complete_name}' is not persistent")
 
         def new_packet_cb(pk):
-            if pk.channel == MISC_CHANNEL and pk.data[0] == MISC_PERSISTENT_GET_STATE:
+            if pk.channel == MISC_CHANNEL and pk.data[0] == MISC_PERSISTENT_GET_STATE and \
+                    struct.unpack('<H', pk.data[1:3])[0] == element.ident:
                 if pk.data[3] == errno.ENOENT:
                     callback(complete_name, None)
                     self.cf.remove_port_callback(CRTPPort.PARAM, new_packet_cb)
